@@ -20,6 +20,9 @@ mod ffi {
         pub fn rsl<'a>(&'a self) -> Result<&'a [u32], u8> { if self.n % 2 == 0 { Err(self.n as u8) } else { Ok(&self.v) } }
         pub fn sl<'a>(&'a self) -> &'a [u32] { &self.v }
         pub fn ou(&self) -> Option<u32> { if self.n % 2 == 0 { None } else { Some(self.n * 7) } }
+        // an Option without a payload and without a writer; a slice that the caller may leave empty / default-constructed
+        pub fn ounit(&self) -> Option<()> { if self.n % 2 == 0 { None } else { Some(()) } }
+        pub fn count(&self, extra: &[u32]) -> u32 { (self.v.len() + extra.len()) as u32 }
         pub fn wopt(&self, pre: u8, w: &mut DiplomatWrite) -> Option<()> { if self.n % 2 == 0 { None } else { let _ = write!(w, "{}-{}", pre, self.n); Some(()) } }
         pub fn wres(&self, pre: u8, w: &mut DiplomatWrite) -> Result<(), u8> { if self.n % 2 == 0 { Err(pre) } else { let _ = write!(w, "{}+{}", pre, self.n); Ok(()) } }
         pub fn wplain(&self, pre: u8, w: &mut DiplomatWrite) { let _ = write!(w, "{}={}", pre, self.n); }
@@ -78,6 +81,7 @@ int main(void) {
     { memset(buf, 0, sizeof buf); DiplomatWrite w = diplomat_simple_write(buf, sizeof buf); Store_wres_result r = Store_wres(s, 8, &w); if (r.is_ok) printf(" wres=1:%s", buf); else printf(" wres=0:E%u", (unsigned)r.err); }
     { memset(buf, 0, sizeof buf); DiplomatWrite w = diplomat_simple_write(buf, sizeof buf); Store_wplain(s, 7, &w); printf(" wplain=%s", buf); }
     { memset(buf, 0, sizeof buf); DiplomatWrite w = diplomat_simple_write(buf, sizeof buf); Store_wstatic_result r = Store_wstatic((uint8_t)n, 4660, &w); printf(" wstatic=%d:%s", (int)r.is_ok, buf); }
+    { Store_ounit_result r = Store_ounit(s); printf(" ounit=%d count=%u", (int)r.is_ok, Store_count(s, (DiplomatU32View){ NULL, 0 })); }
     printf("\n");
     Store_destroy(s);
   }
@@ -121,7 +125,7 @@ def expected(writeable_struct=True):
         s = f'"text-{n}"'
         out.append(f"n{n} os={s if odd else 'N'} ods={s if odd else 'N'} osl={l32 if odd else 'N'} osl16={l16 if odd else 'N'} "
                    f"rsl={l32 if odd else 'E%d' % n} sl={l32} ou={n * 7 if odd else 'N'} wopt={'1:9-%d' % n if odd else '0:'} "
-                   f"wres={'1:8+%d' % n if odd else '0:E8'} wplain=7={n} wstatic={'1:%d:4660' % n if n else '0:'}")
+                   f"wres={'1:8+%d' % n if odd else '0:E8'} wplain=7={n} wstatic={'1:%d:4660' % n if n else '0:'} ounit={1 if odd else 0} count={n}")
     if writeable_struct:
         out.append("simple small: failed=1 len=2 cap=3 | big: failed=0 len=7 text=7=12345")
         out.append("custom: grows=1 flushes=2 failed=0 len=14 text=7=123459=12345")
